@@ -119,9 +119,9 @@ setp('C14',
 P['C14']['engine'] = 'kani'
 
 setp('C19',
- "BOUNDED, not proof: after the D11 repair the crate has no unsafe block (the two `unsafe impl Send/Sync` have no executable content). Kani/CBMC harnesses on the real FragmentBuffer / AssemblyWindow code with CBMC's memory-leak check and Kani's allocator model (dealloc size must equal alloc size): new -> write -> finalize -> drop with a symbolic last-fragment length, finalize of a 2-fragment buffer with symbolic total_size, drop without finalize, (assembly-window partial/complete life cycles when merged); bounds: <= 2 fragments, <= 2 slots. Plus a syntactic audit on every run (no unsafe block / forget / leak / ManuallyDrop / raw-pointer round trip; Rc strong edges form a DAG): if the audit no longer holds and no harness fails, the check is UNDECIDED.",
+ "BOUNDED, not proof: after the D11 repair the crate has no unsafe block (the two `unsafe impl Send/Sync` have no executable content). Kani/CBMC harnesses on the real FragmentBuffer / AssemblyWindow code with CBMC's memory-leak check and Kani's allocator model (dealloc size must equal alloc size): new -> write -> finalize -> drop with a symbolic last-fragment length, finalize of a 2-fragment buffer with symbolic total_size, drop without finalize, (assembly-window partial/complete life cycles when merged); bounds: <= 2 fragments, <= 2 slots. Plus a dynamic whole-endpoint teardown check (native/it_c19_teardown.rs, an integration test with a counting global allocator: four connection life cycles over loopback - timeout mid-transfer, graceful disconnect, tentative entry dropped, server dropped while active - must return every byte with the size it was allocated with; a concrete leaking scenario is reported as the failing input). Plus a syntactic audit on every run (no unsafe block / forget / leak / ManuallyDrop / raw-pointer round trip; Rc strong edges form a DAG): if the audit no longer holds and no harness fails, the check is UNDECIDED.",
  "Trusted: Kani's allocator model and CBMC's leak check. Whole-endpoint teardown accounting (client/server drop) is not decided: it is an allocator-level dynamic question; ownership is by Rc/Weak with no cycles (audit).",
- nd=["byte-accurate teardown accounting of a whole client/server", "life cycles with more than 2 fragments"], technique='bounded model checking with Kani/CBMC (allocator contract + leak check) on the real code, plus syntactic audit', units=['kani:heap', 'audit:heap'])
+ nd=["teardown accounting of a whole client/server beyond the four tested life cycles", "life cycles with more than 2 fragments under Kani"], technique='bounded model checking with Kani/CBMC (allocator contract + leak check) on the real code, plus syntactic audit', units=['kani:heap', 'audit:heap', 'native:C19'])
 P['C19']['level'] = 'bounded'; P['C19']['engine'] = 'kani'
 P['C13']['units'] = ['verus', 'kani:refill', 'kani:floats@C13', 'native:C13']
 P['C03']['units'] = ['verus', 'kani:floats@C03', 'native:C03']
